@@ -17,6 +17,16 @@ Depth1 ==
   \cup {<<"tstruct", <<<<"a", x, FALSE>>>>>> : x \in Small}
   \cup {<<"tstruct", <<<<"a", x, FALSE>>, <<"b", y, o>>>>>> : x \in {<<"ty", "/any">>, <<"ty", "/number">>}, y \in {<<"ty", "/string">>, <<"pre", <<"foo">>>>}, o \in BOOLEAN}
   \cup {<<"tstruct", <<>>>>}
+  \* tagged unions: variants with and without fields, the field-less one first, in the middle, last
+  \cup {<<"ttagged", "kind", vs>> : vs \in {
+           <<<<"p", <<<<"a", <<"ty", "/number">>, FALSE>>>>>>, <<"q", <<>>>>>>,
+           <<<<"q", <<>>>>, <<"p", <<<<"a", <<"ty", "/number">>, FALSE>>>>>>>>,
+           <<<<"q", <<>>>>, <<"r", <<>>>>>>,
+           <<<<"p", <<<<"a", <<"ty", "/number">>, FALSE>>>>>>, <<"q", <<>>>>, <<"r", <<<<"b", <<"ty", "/string">>, FALSE>>>>>>>>,
+           <<<<"p", <<<<"a", <<"ty", "/number">>, FALSE>>>>>>, <<"r", <<<<"a", <<"ty", "/string">>, FALSE>>>>>>>> }}
+  \* the variants on their own, as structs with a singleton tag
+  \cup {<<"tstruct", <<<<"kind", <<"single", Cn(<<g>>)>>, FALSE>>>>>> : g \in {"p", "q", "r"}}
+  \cup {<<"tstruct", <<<<"kind", <<"single", Cn(<<"p">>)>>, FALSE>>, <<"a", <<"ty", "/number">>, FALSE>>>>>>}
 Depth2 ==
   {<<"tlist", t>> : t \in {<<"tpair", <<"ty", "/number">>, <<"pre", <<"foo">>>>>>, <<"union", <<<<"ty", "/number">>, <<"ty", "/string">>>>>>, <<"tlist", <<"ty", "/number">>>>}}
   \cup {<<"union", <<<<"tlist", <<"ty", "/number">>>>, <<"tpair", <<"ty", "/any">>, <<"ty", "/any">>>>>>>>}
@@ -30,7 +40,10 @@ Universe ==
      List(<<Pair(Num(1), Cn(<<"foo", "a">>))>>),
      MapV(<<>>), MapV(<<<<Num(1), Str("a")>>>>), MapV(<<<<Str("k"), Num(1)>>>>), MapV(<<<<Cn(<<"foo", "a">>), Num(1)>>>>), MapV(<<<<Cn(<<"foobar", "x">>), Num(1)>>>>),
      StructV(<<>>), StructV(<<<<Cn(<<"a">>), Num(1)>>>>), StructV(<<<<Cn(<<"a">>), Num(1)>>, <<Cn(<<"b">>), Str("x")>>>>),
-     StructV(<<<<Cn(<<"b">>), Str("x")>>>>), StructV(<<<<Cn(<<"a">>), Str("x")>>>>), StructV(<<<<Cn(<<"a">>), Num(1)>>, <<Cn(<<"b">>), Cn(<<"foo", "q">>)>>>>) >>
+     StructV(<<<<Cn(<<"b">>), Str("x")>>>>), StructV(<<<<Cn(<<"a">>), Str("x")>>>>), StructV(<<<<Cn(<<"a">>), Num(1)>>, <<Cn(<<"b">>), Cn(<<"foo", "q">>)>>>>),
+     StructV(<<<<Cn(<<"kind">>), Cn(<<"p">>)>>, <<Cn(<<"a">>), Num(1)>>>>), StructV(<<<<Cn(<<"kind">>), Cn(<<"q">>)>>>>), StructV(<<<<Cn(<<"kind">>), Cn(<<"r">>)>>>>),
+     StructV(<<<<Cn(<<"kind">>), Cn(<<"q">>)>>, <<Cn(<<"a">>), Num(1)>>>>), StructV(<<<<Cn(<<"kind">>), Cn(<<"r">>)>>, <<Cn(<<"a">>), Str("x")>>>>),
+     StructV(<<<<Cn(<<"kind">>), Cn(<<"r">>)>>, <<Cn(<<"b">>), Str("x")>>>>), StructV(<<<<Cn(<<"kind">>), Cn(<<"p">>)>>>>) >>
 Init == done = FALSE
 Next == ~done /\ done' = TRUE
 Emit == done => PrintT(<<"CASE", ToJson([universe |-> Universe, types |-> SetToSeq(AllTypes)])>>)
